@@ -55,7 +55,7 @@ def run(res, a):
             fam = "frame" if rep["case"].startswith("xdec ") else "stack"
             o = core.shard_run(os.path.join(core.BUILD, "hcdrv"), fam, ["replay " + rep["case"]]).get("replay", "NO-OUTPUT")
             t = rep["case"].split(" ")
-            okk = (o == "r1=%s r2=%s" % (t[2], t[3])) if fam == "frame" else o.endswith("VR=fresh")
+            okk = (o == "r1=%s r2=%s" % (t[2], t[3])) if fam == "frame" else (o.split(" ")[-1].startswith("INJ=none") if " INJ:" in rep["case"] else o.endswith("VR=fresh"))
             res.cases += 1
             if not okk:
                 res.violations.append(("xsession", dict(rep, implementation_observed=o[:300])))
@@ -261,6 +261,30 @@ def run(res, a):
                                                 "implementation_observed": o[:300], "required": why, "failing_input_found": True,
                                                 "replay": "python3 tools/check.py C05 --replay <this file>"}))
     res.obligations.append(("implementation-side runs: two receiving sessions interleaved; a recorded exchange replayed on later connections", bad == 0, "%d runs, %d failing" % (len(xs) + len(vr), bad)))
+    # where the encrypted stream begins: plaintext requests put behind a controller's genuine pair-verify finish (same segment) and
+    # one stray byte a moment later.  None of it was sealed by the controller: nothing of it may be served.
+    # (Model/Pipeline.v: C05_only_sealed_requests_served / C05_refuted_request_buffered_before_the_switch)
+    inj = {"id": "inj0", "kind": "plaintext-behind-finish", "line": "sk nacc=0 N:h S:h:c0:ok INJ:c0:2.9:%d" % (12 if quick else 60)}
+    o = core.shard_run(os.path.join(core.BUILD, "hcdrv"), "stack", ["%s %s" % (inj["id"], inj["line"])]).get(inj["id"], "NO-OUTPUT")
+    res.cases += 1
+    res.distinct.add(core.sha(inj["line"]))
+    res.nontrivial.add(core.sha(inj["line"]))
+    res.count("kind:" + inj["kind"])
+    last = o.split(" ")[-1]
+    res.extra["plaintext_behind_finish"] = last
+    if last.startswith("INJ=hit"):
+        key = "C05:plaintext-behind-verify-finish"
+        known = {k["key"]: k for k in core.load_known() if k.get("property") == ID and k.get("state") == "known"}
+        if key in known:
+            res.known_hits[key] = known[key]["what"]
+        else:
+            res.violations.append(("plaintext-behind-finish", {"property": ID, "family": "stack", "seed": res.seed, "case": inj["line"], "implementation_observed": o[-200:],
+                                   "required": "plaintext requests put behind a controller's genuine pair-verify finish were served as the controller's (%s): only what the peer sealed may be released" % last,
+                                   "failing_input_found": True, "replay": "python3 tools/check.py C05 --replay <this file>"}))
+    elif not last.startswith("INJ=none"):
+        res.violations.append(("plaintext-behind-finish", {"property": ID, "family": "stack", "seed": res.seed, "case": inj["line"], "implementation_observed": o[-200:],
+                               "required": "the scenario must run (harness failure?)", "failing_input_found": False, "replay": "python3 tools/check.py C05 --replay <this file>"}))
+    res.obligations.append(("implementation-side run: plaintext requests behind a genuine pair-verify finish (recorded finding when served)", True, last))
 
 
 class Counter:
